@@ -173,7 +173,12 @@ def gen_cmd(pkg, t, log):
                 if e.get("x"):
                     body += 'chmod +x "$OUT/%s"; ' % path
     else:
-        body = 'for o in $OUTS; do { echo "T %s %s ${o##*/}";%s %s; } > "$o"; done; ' % (lab, t["salt"], envdump, DUMP)
+        kill = ""
+        if t.get("killfile"):
+            # fault injection from inside the action: if the trigger file exists, the command kills plz
+            # (its parent) with SIGKILL after having written one output, and stops.
+            kill = ' if [ -e "%s" ]; then rm -f "%s"; kill -9 $PPID; exit 1; fi;' % (t["killfile"], t["killfile"])
+        body = 'for o in $OUTS; do { echo "T %s %s ${o##*/}";%s %s; } > "$o";%s done; ' % (lab, t["salt"], envdump, DUMP, kill)
     if t.get("quiet"):
         body += ': %s; ' % t["quiet"]
     return pre + body + 'echo "E %s ok" >> %s' % (lab, log)
